@@ -28,6 +28,8 @@ from sim.world import TYPED_KW
 STRS = ["", "a", "ab", "abc", "abcd", "x_1", "a_id", "k1", "Zz", "été", "x", "abcdef"]
 INTS = [-3, -1, 0, 1, 2, 3, 4, 5, 6, 8, 10, 12]
 FLOATS = [0.5, 1.0, 2.5, -1.5, 3.0, 4.0, 0.0]
+# rarely: numbers at the edges of the float/int/bool zoo
+EDGE_NUMBERS = [-0.0, 1e308, -1e308, 5e-324, float("nan"), 2 ** 53 + 1, -(2 ** 63), 10 ** 40]
 PATTERNS = [
     ("^x", ["x", "x_1", "xk"]),
     ("_id$", ["a_id", "x_id"]),
@@ -474,6 +476,8 @@ def _np(val):
 
 def random_json(rng, depth=0):
     roll = rng.random()
+    if rng.random() < 0.01:
+        return rng.choice(EDGE_NUMBERS)
     if roll < 0.2:
         return rng.choice(STRS)
     if roll < 0.4:
@@ -726,8 +730,12 @@ def mutate(rng, value, depth=0):
     if isinstance(value, bool):
         return rng.choice([int(value), not value, "true"])
     if isinstance(value, int):
+        if rng.random() < 0.05:
+            return rng.choice(EDGE_NUMBERS)
         return rng.choice([value + 1, value - 1, float(value), value * 7 + 1, str(value), True])
     if isinstance(value, float):
+        if rng.random() < 0.05 or value != value or abs(value) > 1e300:
+            return rng.choice(EDGE_NUMBERS + [0.5])
         return rng.choice([value + 0.5, -value, int(value), str(value)])
     if isinstance(value, str):
         return rng.choice([value + "x", value[:-1], value.upper(), 0, value + value + "abcdefg", None])
